@@ -1269,6 +1269,40 @@ fn check_with(c: &Case, f: &Facts) -> Result<Notes, String> {
             let tag = format!("[{fm:?}/{mode:?}]");
             let out = guarded(&tag, || render(err, fm, mode))?;
             scan(&tag, &out)?;
+            if f.model.lone_cr && !f.model.bom_inside && !multi_line_msg && !validation && mode == SnippetMode::Auto {
+                // a lone CR is a line break for the parser: the line shown under the located
+                // line number must be (a fragment of) the line the parser counted, not the
+                // LF-delimited physical line with that number
+                if let Some((l, _)) = f.loc {
+                    let true_lines: Vec<&str> = {
+                        let t = c.text.strip_prefix('\u{feff}').unwrap_or(&c.text);
+                        let mut v = vec![];
+                        let mut start = 0;
+                        let b = t.as_bytes();
+                        let mut i = 0;
+                        while i < b.len() {
+                            if b[i] == b'\n' || b[i] == b'\r' {
+                                v.push(&t[start..i]);
+                                if b[i] == b'\r' && b.get(i + 1) == Some(&b'\n') {
+                                    i += 1;
+                                }
+                                start = i + 1;
+                            }
+                            i += 1;
+                        }
+                        v.push(&t[start..]);
+                        v
+                    };
+                    let prefix = format!("{l} | ");
+                    if let (Some(shown), Some(want)) = (out.lines().find_map(|x| x.trim_start().strip_prefix(prefix.as_str())), true_lines.get(l - 1)) {
+                        let norm = |x: &str| -> String { x.chars().map(sanitize_char).filter(|ch| *ch != '…').collect::<String>().trim().to_string() };
+                        let (sh, wa) = (norm(shown), norm(want));
+                        if !sh.is_empty() && !wa.contains(&sh) && !sh.contains(&wa) {
+                            return Err(format!("{tag} lone CR line breaks: the line shown as line {l} is {shown:?}, the parser's line {l} is {want:?}"));
+                        }
+                    }
+                }
+            }
             if !layout_ok {
                 continue;
             }
@@ -1770,7 +1804,7 @@ impl Property for C17 {
     fn assumptions() -> Vec<String> {
         vec![
             "inputs with U+FEFF anywhere after the start of the text get only the no-panic and no-control-character checks".into(),
-            "inputs containing a lone CR line break (not part of CRLF) get only the no-panic and no-control-character checks: the parser counts CR as a line break, the snippet code splits at LF only, and nothing documents which line should be shown".into(),
+            "inputs containing a lone CR line break (not part of CRLF): the parser counts CR as a line break, the snippet code splits at LF only - besides no-panic and no-control-characters only 'the line shown under the located number is the parser's line' is judged (open finding c17-lone-cr-line-numbering)".into(),
             "reports whose message text itself contains line breaks (reflected \"\\n\", several validation issues) get only the no-panic and no-control-character checks (the layout is ambiguous to parse)".into(),
             "a location on the implicit empty line after a final line break: annotate-snippets does not display that line and attaches the marker to the end of the previous line; accepted".into(),
             "lines wider than 140 columns are additionally trimmed by annotate-snippets itself ('...'); for those only the character above the caret is compared".into(),
@@ -1809,6 +1843,9 @@ impl Property for C17 {
         }
         if sig_marker_in_trimmed_margin(c, &f) {
             v.push("marker_in_trimmed_margin");
+        }
+        if f.model.lone_cr && f.loc.is_some() {
+            v.push("lone_cr_line_break");
         }
         v
     }
